@@ -178,6 +178,18 @@ impl Ledger {
 
 /// The clauses of the property statement on the real state, after one operation.
 fn oracle_state(w: &World, l: &Ledger) -> Result<(), String> {
+    // `TrapSet::iter` lists exactly the known conditions, in ascending order, with the same states
+    let mut last: Option<Condition> = None;
+    for (cond, cur, par) in w.env.traps.iter() {
+        if last.is_some_and(|p| p >= *cond) {
+            return Err("iter-order".into());
+        }
+        last = Some(*cond);
+        let (c2, p2) = w.env.traps.get_state(*cond);
+        if c2 != Some(cur) || p2 != par {
+            return Err("iter-disagrees-with-get_state".into());
+        }
+    }
     for (name, n) in CONDS.iter() {
         let Some(n) = *n else { continue };
         let (cur, _) = w.env.traps.get_state(Condition::Signal(n));
@@ -771,6 +783,7 @@ fn tb_simple(ws: &[&str]) -> Option<String> {
     Some(match ws {
         ["T", a, ops @ ..] => format!("trap {} {}", tb_action(a)?, tb_operands(ops)?).trim_end().to_string(),
         ["TN", ops @ ..] => format!("trap {}", tb_operands(ops)?).trim_end().to_string(),
+        ["TX"] => "trap -z INT".into(),
         ["P"] => "trap".into(),
         ["PP"] => "trap -p".into(),
         ["PC", ops @ ..] => format!("trap -p {}", tb_operands(ops)?).trim_end().to_string(),
@@ -916,13 +929,18 @@ fn run_tb_case(case: &str) -> (String, String) {
 /// (the Lean driver prints its own table: any drift of signal numbers or names shows up here).
 fn run_conds_case() -> (String, String) {
     let w = World::new();
+    let mut oracle = "ok".to_string();
     let v: Vec<String> = Condition::iter(&w.env.system)
         .map(|c| {
             let raw: yash_env::signal::RawNumber = c.into();
+            // number <-> condition round trip
+            if Condition::from(raw) != c {
+                oracle = format!("FAIL:roundtrip:{raw}");
+            }
             format!("{}:{}", raw, c.to_string(&w.env.system))
         })
         .collect();
-    (v.join(","), "-".into())
+    (v.join(","), oracle)
 }
 
 fn run_case(case: &str) -> (String, String, String) {
@@ -1263,6 +1281,8 @@ fn main() {
         for ops in ["2", "2 3", "0", "INT", "999", "15 FOO", "", "0 2 124"] {
             emit_tb(format!("tb {ig}T c1 INT QUIT 0 USR1; TN {ops}; P; R 1; PC 2 3 0"), &mut out);
         }
+        emit_tb(format!("tb {ig}T c1 INT 0; TX; R 1"), &mut out);
+        emit_tb(format!("tb {ig}T c1 INT 0; sub TX , R 2; R 1"), &mut out);
     }
     // (c) a signal sent to the shell itself under every disposition, for every signal of the system
     let all_names: Vec<String> = {
